@@ -214,7 +214,7 @@ def run(ctx):
     try:
         files, er = jc.emit(ctx, "EmitJID", EMIT_CFG % dict(parselen=4, sublen=0 if quick or ctx.replay else 5, iplen=3 if ctx.replay else (4 if quick else 5), partlen=2), FILES,
                             timeout=1200)
-        pf, pr = jc.emit(ctx, "MCJIDStore", STORE_CFG % dict(maxops=0, emitlen=2 if ctx.replay else (3 if quick else 4), props=""),
+        pf, pr = jc.emit(ctx, "MCJIDStore", STORE_CFG % dict(maxops=0, emitlen=2 if ctx.replay else 3, props=""),
                          ["progs.ndjson"], timeout=1200)
         files.update(pf)
         nvec = sum(sum(1 for _ in open(files[f])) for f in FILES[:4] + ["progs.ndjson"])
@@ -223,7 +223,8 @@ def run(ctx):
         if ctx.replay:
             summ = drive(ctx, files, trace, {}, replay_case=json.load(open(ctx.replay))["case"]["case"])
         else:
-            summ = drive(ctx, files, trace, {"JID_PROGS": files["progs.ndjson"], "JID_CORPUS": "30000" if quick else "1000000",
+            summ = drive(ctx, files, trace, {"JID_PROGS": files["progs.ndjson"], "JID_PROGS_RANDOM": "2000" if quick else "60000",
+                                             "JID_CORPUS": "30000" if quick else "1000000",
                                              "JID_TRACE_EVERY": "25" if quick else "40"})
         x = summ["extra"]
         ctx.log("driver: %d cases on the real package (%s), %d addresses returned and checked against the laws, %d findings; %d traces / %d events recorded" % (
@@ -254,7 +255,7 @@ def run(ctx):
         "rejected_traces": len(rejected), "binding_selftest_mutants_rejected": nself,
         "valid_addresses_rejected": x.get("ok_class_rejected"), "valid_addresses": x.get("ok_class"),
         "exhaustive": "every string of length <= 4 over 19 representative symbols, <= %d over 10 of them (+ runs of 1022/1023/1024 letters in each part); all part triples with parts <= 2 over {a,A,@,/,.} and <= 1 over all symbols; replacements of each part of 6 valid bases by every part of length <= 2; Equal on all pairs of 22 valid strings over {a,@,/}" % (4 if quick else 5),
-        "value_layer": "JIDStore.tla: programs of <= %d operations (Bare, Domain, Copy, WithLocal / WithDomain / WithResource with 4 parts, on ANY address handed out so far) from 3 bases over the packed representation with shared buffers; every program emitted by TLC and run on the real package, all addresses handed out re-read after every operation (C11_Immutable), TLC validates the observations; deviations AppendInPlace / ReplaceInPlace shown to violate C11_Immutable" % (3 if quick else 4),
+        "value_layer": "JIDStore.tla: programs of <= %d operations (Bare, Domain, Copy, WithLocal / WithDomain / WithResource with 4 parts, on ANY address handed out so far) from 3 bases over the packed representation with shared buffers (design check); every program of <= 3 operations emitted by TLC plus seeded random programs of 6 operations run on the real package, all addresses handed out re-read after every operation (C11_Immutable), TLC validates the observations; deviations AppendInPlace / ReplaceInPlace shown to violate C11_Immutable" % (3 if quick else 4),
         "design_check": "MCJID: API machine (Parse, New, WithLocal/WithDomain/WithResource, Bare, Domain), strict and lenient treatment of unmodelled parts; closure of the reference functions; deviation TrailingDotOnce shown to violate the invariants",
         "rule": "a case is one vector or one corpus string/triple (distinct by content); every address returned without error is checked against all six laws; a trace is the observation record of one case",
         "samples": summ["samples"][:2] + summ["mismatches"][:1],
